@@ -648,6 +648,58 @@ theorem proposer_matches_validator (p : Params) (iter : KMap → KMap) (hi : IsI
       simp [hm, checkoutRewardCoinbase, outputMapFrom]
     · simp [hm]
 
+theorem payRewards_bound (script : Key) (M : Nat) : ∀ (l : List (Key × Nat)) (outs : List COut),
+    (∀ o ∈ outs, o.amount ≤ M) → (∀ e ∈ l, e.2 ≤ M) → ∀ o ∈ payRewards script l outs, o.amount ≤ M
+  | [], outs, ho, _ => by simpa [payRewards] using ho
+  | (cp, a) :: t, outs, ho, hl => by
+    have ha : a ≤ M := hl (cp, a) (by simp)
+    have ht : ∀ e ∈ t, e.2 ≤ M := fun e he => hl e (List.mem_cons_of_mem _ he)
+    by_cases e : cp = script
+    · simp only [payRewards, e, if_true]
+      cases outs with
+      | nil => exact payRewards_bound script M t [] (by simp) ht
+      | cons o rest =>
+        apply payRewards_bound script M t _ _ ht
+        intro x hx
+        rcases List.mem_cons.mp hx with c | c
+        · subst c; exact ha
+        · exact ho x (List.mem_cons_of_mem _ c)
+    · simp only [payRewards, e, if_false]
+      apply payRewards_bound script M t _ _ ht
+      intro x hx
+      rcases List.mem_append.mp hx with c | c
+      · exact ho x c
+      · simp at c; subst c; exact ha
+
+/-- the whole `createCoinbaseTx` (incl. serialization of the built transaction) succeeds with
+    exactly these outputs when every table entry is a serializable amount (≤ 2^63−1) — and they
+    pass the validator (`proposer_matches_validator`) -/
+theorem proposer_tx_matches_validator (p : Params) (iter : KMap → KMap) (hi : IsIter iter) (height : Nat) (script : Key)
+    (rewards : KMap) (he : p.epoch ≠ 0) (hn : (kkeys rewards).Nodup)
+    (hv : ∀ e ∈ rewards, e.2 ≠ 0 ∧ e.2 ≤ 9223372036854775807) (h1 : height = 1 → height % p.epoch = 1 → rewards = []) :
+    ∃ outs, createCoinbaseTx p iter height script rewards = .ok outs ∧
+      checkCoinbaseAmount p height true outs rewards = .ok () := by
+  obtain ⟨outs, h1', h2⟩ := proposer_matches_validator p iter hi height script rewards he hn
+    (fun e h => ⟨(hv e h).1, by have := (hv e h).2; unfold u64; omega⟩) h1
+  refine ⟨outs, ?_, h2⟩
+  unfold createCoinbaseTx
+  rw [h1']
+  have hb : ∀ o ∈ outs, o.amount ≤ 9223372036854775807 := by
+    unfold createCoinbaseOutputs at h1'
+    simp only [he, if_false] at h1'
+    split at h1'
+    · injection h1' with h1'
+      subst h1'
+      apply payRewards_bound script _ _ _ (by simp)
+      intro e hin; exact (hv e ((hi rewards).subset hin)).2
+    · injection h1' with h1'
+      subst h1'
+      simp
+  have : outs.any (fun o => decide (o.amount > 9223372036854775807)) = false := by
+    rw [List.any_eq_false]
+    intro o ho; have := hb o ho; simp; omega
+  simp [this]
+
 /-! ### the subsidy in exact arithmetic -/
 
 /-- `validatorReward()` in EXACT rational arithmetic: with pledge rate v/s ≤ 1/2 the subsidy
